@@ -30,6 +30,7 @@ def trace_cfg(test_mode, qmax, pp_interval=2, skip_fix=True):
             "  PPInterval = %d" % pp_interval,
             "  TestMode = %s" % ("TRUE" if test_mode else "FALSE"),
             '  FaultKinds = {"none", "req", "param", "store", "rcstore", "die", "cancel"}',
+            "  MaxTimed = 100",
             "  MaxEternal = 100000",
             "CHECK_DEADLOCK FALSE",
             "",
